@@ -28,8 +28,9 @@ Local Open Scope Z_scope.
 (* ---- values ------------------------------------------------------------------------------ *)
 
 Inductive vtag : Set := Def | Hi32 | NaNp | Ptr | Opaque
-| LDt.   (* a long double: the bits are the 80-bit x87 pattern; lives in registers only (conversions from/to
-            integers and doubles, ldmov, ld arithmetic) - never stored, passed, returned or compared *)
+| LDt.   (* a long double: the bits are the 80-bit x87 pattern; lives in registers (conversions from/to
+            integers and doubles, ldmov, ld arithmetic) and is passed to / returned from MIR functions at
+            type ld unchanged - never stored, compared or shown to the outside world *)
 
 Record value : Set := V { v_bits : Z; v_tag : vtag }.
 
@@ -106,6 +107,7 @@ Definition ext_ty (t : ty) (z : Z) : option Z :=
   | T_I64 | T_U64 | T_P => Some (u64 z)
   | T_F => Some (u32 z)
   | T_D => Some (u64 z)
+  | T_LD => Some z          (* 80-bit pattern, kept as it is *)
   | _ => None
   end.
 
@@ -119,6 +121,8 @@ Definition tag_ok (t : ty) (strict : bool) (g : vtag) : bool :=
       match g with Def => true | Ptr => negb strict | _ => false end
   | T_F | T_D =>
       match g with Def => true | NaNp => negb strict | _ => false end
+  | T_LD =>                (* only between MIR functions, and only a value that is a long double *)
+      match g with LDt => negb strict | _ => false end
   | _ => false
   end.
 
